@@ -174,9 +174,9 @@ def t_end(ending, ntraffic, second=None, tls=False):
     cover("second")
 
 
-def t_preempt(ending, answer, ping):
+def t_preempt(ending, answer, ping, nyields=14):
     """app.close() called from a second thread that is released at the idx-th yield of the loop (idx symbolic)"""
-    idx = sx.choice("yield", 10)
+    idx = sx.choice("yield", nyields)
     script = [(1, server_frame(1, 2, b"a")), (2, server_frame(1, 9, b"p")), (2, server_frame(1, 2, b"b"))]
     exp_args, exp_err = (None, None), False
     if ending == "eof":
@@ -224,21 +224,21 @@ def obligations(tier):
     thorough = tier == "thorough"
     ends = []
     for e in ENDINGS:
-        for n in ((0, 1, 2) if thorough else (0, 1)):
+        for n in ((0, 1, 2, 3) if thorough else (0, 1, 2)):
             ends.append(dict(ending=e, ntraffic=n))
         ends.append(dict(ending=e, ntraffic=1, tls=True))
     seconds = [dict(ending=e, ntraffic=0, second=s) for e in ("close0", "eof", "proto", "refused", "close-in-message", "pingtimeout", "rejected")
                for s in ("close0", "eof", "close2") if thorough or s != "close2" or e in ("eof", "close0")]
-    pre = [dict(ending=e, answer=a, ping=p) for e in ("none", "eof", "close") for a in (True, False) for p in (False, True)]
+    pre = [dict(ending=e, answer=a, ping=p, nyields=24 if thorough else 14) for e in ("none", "eof", "close") for a in (True, False) for p in (False, True)]
     return [
         Obligation("T-end", t_end, ends, bounds="every ending kind %s after 0..%d data frames, plain and TLS; close code symbolic over all wire-legal "
-                   "codes, reason 2 symbolic ASCII bytes" % (list(ENDINGS), 2 if thorough else 1),
+                   "codes, reason 2 symbolic ASCII bytes" % (list(ENDINGS), 3 if thorough else 2),
                    must_cover=["end-" + e for e in ENDINGS], budget_s=1800, step_budget=60000,
                    kernel=["WebSocketApp.run_forever", "teardown", "read", "closed", "handleDisconnect", "_get_close_args", "WebSocketApp.close",
                            "_stop_ping_thread", "Dispatcher.read", "WebSocket.close"]),
         Obligation("T-second", t_end, seconds, bounds="a second run_forever on the same object after each of 7 ending kinds", must_cover=["second"],
                    budget_s=1800, step_budget=60000, kernel=["WebSocketApp.run_forever"]),
-        Obligation("T-preempt", t_preempt, pre, bounds="close() from a second lock-step thread released at every one of the first 10 yield points "
+        Obligation("T-preempt", t_preempt, pre, bounds="close() from a second lock-step thread released at every one of the first 14 (thorough: 24) yield points "
                    "of the loop (symbolic index); server answering the close frame or silent; with and without a ping thread",
                    must_cover=["preempt"], budget_s=1800, step_budget=60000, kernel=["WebSocketApp.close", "WebSocket.close", "teardown", "read"]),
     ]
